@@ -19,6 +19,8 @@ let no_macro = ref false
 let with_close = ref false
 let cacts : cact list ref = ref []
 let ncok = ref 0
+let nslotpred = ref 0
+let case_size = ref 1
 let prog_acts = ref ""
 let stack : (state * int) list ref = ref [ (init_state, 0) ]
 let case_id = ref ""
@@ -280,11 +282,25 @@ let () =
           | ["rec"; v] -> rec_ts := List.filter_map (fun x -> if x = "" then None else Some (int_of_string x)) (String.split_on_char ',' v)
           | ["recmax"; v] -> rec_max := int_of_string v
           | ["nomacro"; v] -> no_macro := (v = "1")
+          | ["size"; v] -> case_size := int_of_string v
           | ["close"; v] -> with_close := (v = "1")
           | _ -> ()) (String.split_on_char ';' spec);
         bump ("case:" ^ (List.hd (String.split_on_char '-' id)))
-    | "NS" :: v :: _ -> nslots := int_of_string v
-    | "SF" :: k :: v :: _ -> Hashtbl.replace sf_tab (int_of_string k) (int_of_string v)
+    | "NS" :: v :: _ ->
+        nslots := int_of_string v;
+        (* predicted by the model: NewLatches rounds the size up to a power of two *)
+        let p = i_of_n (round_pow2 (n_i !case_size)) in
+        incr nslotpred;
+        if p <> !nslots then mismatch "nslots" line (Printf.sprintf "model round_pow2(%d)=%d" !case_size p)
+    | "SF" :: k :: v :: rest ->
+        Hashtbl.replace sf_tab (int_of_string k) (int_of_string v);
+        (match rest with
+         | hx :: _ when hx <> "" ->
+             (* predicted by the model: murmur3.Sum32(key) & (slots-1) *)
+             let p = i_of_n (slot_id (n_i !case_size) (bytes_of_hex hx)) in
+             incr nslotpred;
+             if p <> int_of_string v then mismatch "slot-id" line (Printf.sprintf "model slot_id=%d" p)
+         | _ -> ())
     | "T" :: i :: st :: cm :: keys :: "=>" :: sorted :: slots :: _ ->
         let ii = int_of_string i in
         let parse v = if v = "-" then [] else List.map int_of_string (String.split_on_char ',' v) in
@@ -358,5 +374,5 @@ let () =
     | "P" :: _ -> incr pfail; print_endline ("PROPFAIL\t" ^ line)
     | ("PS" | "TOTAL" | "STRESS") :: _ -> print_endline line
     | _ -> ());
-  Printf.printf "STATS\tedges=%d\tenabled_sets=%d\tmismatches=%d\tpropfails=%d\tclient_ok_traces=%d\n" !nedges !nen !mism !pfail !ncok;
+  Printf.printf "STATS\tedges=%d\tenabled_sets=%d\tmismatches=%d\tpropfails=%d\tclient_ok_traces=%d\tslot_predictions=%d\n" !nedges !nen !mism !pfail !ncok !nslotpred;
   Hashtbl.iter (fun k v -> Printf.printf "COUNT\t%s\t%d\n" k v) counts
